@@ -46,8 +46,10 @@ def ballot_loops(ctx, f):
             if r:
                 which, filters, _ = r
                 body = n.body
-                if len(body) == 1 and isinstance(body[0], ast.If) and not body[0].orelse and getattr(n, '_from_do', False):
-                    filters = filters + [body[0].test]
+                if len(body) == 1 and isinstance(body[0], ast.If) and not body[0].orelse:
+                    # `for b in E.ballots: if COND: ...` is the filtered loop (normal form of `for b in (b for b in E.ballots if COND)`)
+                    t_ = body[0].test
+                    filters = filters + (list(t_.values) if isinstance(t_, ast.BoolOp) and isinstance(t_.op, ast.And) else [t_])
                 out.append((n, which, filters, n.target.id))
     return out
 
@@ -401,11 +403,16 @@ def r09_reweighting(ctx):
                 what = 'a surplus transfer sets each ballot\'s value to old value x surplus / tally of the elected candidate, rounded down'
                 bexpr = unparse(st.targets[0].value)
                 loop = st.parent
+                extra_filters = []
+                if isinstance(loop, ast.If) and not loop.orelse and isinstance(loop.parent, ast.For) and loop.parent.body == [loop]:
+                    t_ = loop.test
+                    extra_filters = list(t_.values) if isinstance(t_, ast.BoolOp) and isinstance(t_.op, ast.And) else [t_]
+                    loop = loop.parent
                 if not (isinstance(loop, ast.For) and isinstance(loop.target, ast.Name) and loop.target.id == bexpr and g is f):
                     ctx.bad(R, st, g, what, 'ballot weight stored outside a ballot loop of count(): `%s`' % stmt_text(st))
                     continue
                 r = _is_ballot_iter(ctx, f, loop.iter)
-                tf = _toprank_filter(r[1], bexpr) if r else None
+                tf = _toprank_filter(list(r[1]) + extra_filters, bexpr) if r else None
                 if not r or tf is None or tf[0] != 'eq':
                     ctx.bad(R, st, f, what, 're-weighting loop is not filtered on `%s.topRank == <candidate>.cid`' % bexpr)
                     continue
@@ -440,8 +447,9 @@ def r09_reweighting(ctx):
                     and unparse(sdef.left) == '%s.vote' % X and ctx.canon(sdef.right, f) == 'E.quota'
                 t_ok = unparse(T) == '%s.vote' % X
                 # followed by transfer(b) in the same body; then X.vote = E.quota after the loop
-                idx = loop.body.index(st)
-                nxt = loop.body[idx + 1] if idx + 1 < len(loop.body) else None
+                blk_ = st.parent.body if isinstance(st.parent, ast.If) else loop.body
+                idx = blk_.index(st)
+                nxt = blk_[idx + 1] if idx + 1 < len(blk_) else None
                 tr_ok = isinstance(nxt, ast.Expr) and unparse(nxt.value) == '%s(%s)' % (ri.helper(ctx, 'transfer').name, bexpr)
                 blk = _block_of(loop)
                 li = [i for i, x in enumerate(blk) if x is loop][0]
